@@ -332,6 +332,8 @@ def extract_trace_values(raw):
                     human = []
                     for s in r["trace"]:
                         if s.get("stepType") == "assignment":
+                            if s.get("hidden"):
+                                continue   # declaration step (value 0), not the nondet value
                             lhs = s.get("lhs", "")
                             fn = (s.get("sourceLocation") or {}).get("function", "")
                             v = s.get("value", {})
